@@ -24,8 +24,7 @@ theorem unmarshalOne_framed (f rest : Bytes) (h : Header) (hf : Framed f h) :
     rw [hb, List.append_assoc]; exact Header.dec_bytes h _ hc ht (by omega)
   rw [hd, bind_ok]
   dsimp only
-  have hm : (h.length + 1) % 65536 = h.length + 1 := by omega
-  rw [hm, if_neg (by simp; omega), slice_of_le (by omega) (by simp; omega), bind_ok]
+  rw [if_neg (by simp; omega), slice_of_le (by omega) (by simp; omega), bind_ok]
   have : ((f ++ rest).take ((h.length + 1) * 4)).drop 0 = f := by
     rw [List.drop_zero, ← hs, List.take_left]
   rw [this, hs]
